@@ -8,6 +8,7 @@ use std::cell::RefCell;
 use std::collections::HashMap;
 use std::panic::{catch_unwind, resume_unwind, AssertUnwindSafe};
 use std::sync::{Arc, Condvar as StdCondvar, Mutex as StdMutex, MutexGuard as StdMutexGuard};
+use std::sync::OnceLock;
 
 /// Payload used to unwind controlled threads when an execution is torn down.
 pub struct AbortToken;
@@ -168,7 +169,7 @@ impl LockModel {
 }
 
 struct Th {
-  cv: Arc<StdCondvar>,
+  os: Option<std::thread::Thread>,
   pending: Pending,
   info: ThreadInfo,
   cond_notified: bool,
@@ -265,7 +266,7 @@ pub fn payload_to_string(p: &(dyn Any + Send)) -> String {
 impl Exec {
   pub fn new(cfg: ExecCfg, prefix: Vec<(u8, u64)>) -> Arc<Exec> {
     let t0 = Th {
-      cv: Arc::new(StdCondvar::new()),
+      os: Some(std::thread::current()),
       pending: Pending::Running,
       info: ThreadInfo {
         end: ThreadEnd::Runnable,
@@ -489,7 +490,9 @@ impl Exec {
     st.abort = true;
     st.running = None;
     for th in &st.threads {
-      th.cv.notify_all();
+      if let Some(t) = &th.os {
+        t.unpark();
+      }
     }
     self.done_cv.notify_all();
   }
@@ -575,7 +578,9 @@ impl Exec {
       }
       st.running = Some(next);
       if next != me {
-        st.threads[next].cv.notify_one();
+        if let Some(t) = &st.threads[next].os {
+          t.unpark();
+        }
       }
       return;
     }
@@ -590,8 +595,9 @@ impl Exec {
       if st.running == Some(me) {
         return st;
       }
-      let cv = st.threads[me].cv.clone();
-      st = cv.wait(st).unwrap_or_else(|e| e.into_inner());
+      drop(st);
+      std::thread::park();
+      st = self.lock();
     }
   }
 
@@ -779,6 +785,9 @@ impl Exec {
   /// Condvar::wait: the caller has already dropped the real guard.
   /// Returns true if notified, false if the deadline fired.
   pub fn cond_wait(&self, me: usize, cv: usize, mutex: usize, timeout: Option<u64>) -> bool {
+    // scheduling point before the wait takes effect: what the thread read
+    // before deciding to wait may be stale by the time it is registered
+    self.sched_point(me, Pending::Point(6));
     {
       let mut st = self.lock();
       if st.abort {
@@ -873,7 +882,7 @@ impl Exec {
     let tid = st.threads.len();
     let vt = st.clock;
     st.threads.push(Th {
-      cv: Arc::new(StdCondvar::new()),
+      os: None,
       pending: Pending::Start,
       info: ThreadInfo {
         end: ThreadEnd::Runnable,
@@ -890,12 +899,15 @@ impl Exec {
     tid
   }
 
-  /// Body of a controlled OS thread.
+  /// Body of a controlled OS thread (runs on a pool thread). `store` receives
+  /// the thread's result before the model marks the thread finished, so a
+  /// joiner that is scheduled afterwards always finds it.
   pub fn thread_main<T>(
     self: &Arc<Self>,
     tid: usize,
     f: impl FnOnce() -> T,
-  ) -> std::thread::Result<T> {
+    store: impl FnOnce(std::thread::Result<T>),
+  ) {
     struct Live(Arc<Exec>);
     impl Drop for Live {
       fn drop(&mut self) {
@@ -910,33 +922,30 @@ impl Exec {
     let exec = self.clone();
     let r = catch_unwind(AssertUnwindSafe(move || {
       {
-        let st = exec.lock();
-        let _st = exec.wait_baton(st, tid);
-        // first scheduling: pending Start -> Running
-      }
-      {
         let mut st = exec.lock();
+        st.threads[tid].os = Some(std::thread::current());
+        let mut st = exec.wait_baton(st, tid);
+        // first scheduling: pending Start -> Running
         st.threads[tid].pending = Pending::Running;
       }
       f()
     }));
-    let out = match r {
+    match r {
       Ok(v) => {
+        store(Ok(v));
         self.finish(tid, None);
-        Ok(v)
       }
       Err(p) => {
         if p.downcast_ref::<AbortToken>().is_some() {
-          Err(p)
+          store(Err(p));
         } else {
           let msg = payload_to_string(&*p);
+          store(Err(p));
           self.finish(tid, Some(msg));
-          Err(p)
         }
       }
-    };
+    }
     set_ctx(None);
-    out
   }
 
   pub fn finish(&self, tid: usize, panic_msg: Option<String>) {
@@ -989,7 +998,9 @@ impl Exec {
       if to.timed_out() && st.ended.is_some() {
         // threads may have missed the abort notification
         for th in &st.threads {
-          th.cv.notify_all();
+          if let Some(t) = &th.os {
+            t.unpark();
+          }
         }
       }
       if t0.elapsed().as_secs() > 120 {
@@ -1095,4 +1106,52 @@ pub fn install_quiet_panic_hook() {
       prev(info);
     }));
   });
+}
+
+
+// ------------------------------------------------------------ thread pool
+
+type Job = Box<dyn FnOnce() + Send + 'static>;
+struct PoolThread {
+  job: StdMutex<Option<Job>>,
+  thread: OnceLock<std::thread::Thread>,
+}
+static IDLE: StdMutex<Vec<Arc<PoolThread>>> = StdMutex::new(Vec::new());
+
+/// Run `job` on a pooled OS thread; returns that thread's handle.
+pub fn pool_run(job: Job) -> std::thread::Thread {
+  let idle = IDLE.lock().unwrap_or_else(|e| e.into_inner()).pop();
+  if let Some(pt) = idle {
+    *pt.job.lock().unwrap_or_else(|e| e.into_inner()) = Some(job);
+    let t = pt.thread.get().unwrap().clone();
+    t.unpark();
+    return t;
+  }
+  let pt = Arc::new(PoolThread { job: StdMutex::new(Some(job)), thread: OnceLock::new() });
+  let pt2 = pt.clone();
+  let h = std::thread::Builder::new()
+    .stack_size(1024 * 1024)
+    .name("rxverif-pool".into())
+    .spawn(move || {
+      let pt = pt2;
+      let _ = pt.thread.set(std::thread::current());
+      loop {
+        let job = pt.job.lock().unwrap_or_else(|e| e.into_inner()).take();
+        match job {
+          Some(j) => {
+            let _ = catch_unwind(AssertUnwindSafe(j));
+            // drain any stale unpark token is unnecessary: park() below is
+            // guarded by the job check
+            IDLE.lock().unwrap_or_else(|e| e.into_inner()).push(pt.clone());
+          }
+          None => std::thread::park(),
+        }
+      }
+    })
+    .unwrap_or_else(|e| {
+      std::panic::panic_any(MachineryError(format!("OS refused to spawn a pool thread: {}", e)))
+    });
+  let t = h.thread().clone();
+  let _ = pt.thread.set(t.clone());
+  t
 }
